@@ -707,6 +707,51 @@ func rC01ErrDiscipline(w *World, r *Report) {
 			ru.Bad(key, w.IPos(call), why)
 		}
 	}
+	// inside the loops over the argument list Save only ever returns errors: a value that is refused (not a valid
+	// value, not convertible) fails the parse, it is never skipped silently (the parser has already taken the token)
+	{
+		var args *ssa.Parameter
+		for _, p := range fn.Params {
+			if typeString(p.Type()) == "[]string" {
+				args = p
+			}
+		}
+		nLoops := 0
+		for _, h := range loopHeaders(fn) {
+			if args == nil || rangeCollectionOfHeader(h) != ssa.Value(args) {
+				continue
+			}
+			nLoops++
+			// blocks dominated by the body entry: the loop body and the exits taken from inside it
+			for _, lb := range fn.Blocks {
+				if len(h.Succs) == 0 || !h.Succs[0].Dominates(lb) {
+					continue
+				}
+				for _, in := range lb.Instrs {
+					ret, ok := in.(*ssa.Return)
+					if !ok {
+						continue
+					}
+					nilPossible := false
+					for _, v := range phiLeaves(ret.Results[0], map[ssa.Value]bool{}) {
+						if isNilConst(v) {
+							nilPossible = true
+						}
+					}
+					// `if err != nil { return err }`: the test excludes the nil operand of a merged error variable
+					for _, f := range factsAt(lb) {
+						if f.Op == token.NEQ && f.Y != nil && (f.X == ret.Results[0] && isNilConst(f.Y) || f.Y == ret.Results[0] && isNilConst(f.X)) {
+							nilPossible = false
+						}
+					}
+					ru.Check(!nilPossible, "Save/loop-return", w.IPos(ret), "returns an error", "Save returns success from inside the loop over its arguments: a refused or remaining value is dropped silently (neither stored nor reported)")
+				}
+			}
+		}
+		if nLoops == 0 {
+			ru.Undecided("Save/loop-return", w.Pos(fn.Pos()), "no loop over the argument list found in Save")
+		}
+	}
 	// Save call sites
 	for _, f := range w.Funcs {
 		for _, c := range callsTo(f, nSave) {
@@ -722,6 +767,28 @@ func rC01ErrDiscipline(w *World, r *Report) {
 			if refs != nil {
 				for _, ref := range *refs {
 					switch x := ref.(type) {
+					case *ssa.Phi:
+						// single exit: the error travels through a result variable to the return
+						used = true
+						seenPhi := map[*ssa.Phi]bool{}
+						var follow func(p *ssa.Phi)
+						follow = func(p *ssa.Phi) {
+							if seenPhi[p] || p.Referrers() == nil {
+								return
+							}
+							seenPhi[p] = true
+							for _, r2 := range *p.Referrers() {
+								switch y := r2.(type) {
+								case *ssa.Return:
+									if len(y.Results) > 0 && y.Results[len(y.Results)-1] == ssa.Value(p) {
+										returned = true
+									}
+								case *ssa.Phi:
+									follow(y)
+								}
+							}
+						}
+						follow(x)
 					case *ssa.Return:
 						returned = true
 						used = true
